@@ -35,16 +35,20 @@ Proof.
   destruct p as [t0|n sch|n|n|]; cbn [render_piece piece_wf] in *; try discriminate F1; try reflexivity.
   - rewrite (schema_if_forced e n sch F1).
     destruct (render_piece_emits q e (Tbl n sch) E eq_refl) as [t Ht]. cbn [render_piece] in Ht.
-    destruct (format_table_name q (slot e n) (schema_if e sch)) as [x|]; [reflexivity | discriminate Ht].
+    destruct (format_table_name q (flag e n) (slot e n) (sflag e) (schema_if e sch)) as [x|]; [reflexivity | discriminate Ht].
   - destruct (render_piece_emits q e (Col n) E eq_refl) as [t Ht]. cbn [render_piece] in Ht.
-    destruct (format_column_name q (slot e n)) as [x|]; [reflexivity | discriminate Ht].
+    destruct (format_column_name q (flag e n) (slot e n)) as [x|]; [reflexivity | discriminate Ht].
 Qed.
 
 Theorem inner_sql_sound q e ps : inner_sql_wf q ps = true -> env_ok q e = true ->
   lex q (concat (map (inner_expected q e) ps)) = expected_tokens q e (map as_piece ps).
 Proof.
   intros V E. pose proof V as V0. unfold inner_sql_wf, visitor_wf in V. rewrite !andb_true_iff in V. destruct V as [_ F].
-  now destruct (visitor_sound q e _ _ V0 E (render_inner_sql q e ps E F)) as [L _].
+  assert (SA : sa_ok (map as_piece ps) e = true).
+  { unfold sa_ok. assert (existsb is_tblsa (map as_piece ps) = false) as ->; [|reflexivity].
+    clear. induction ps as [|[esc ip] ps IH]; [reflexivity|]. cbn [map existsb]. rewrite IH.
+    destruct ip; reflexivity. }
+  now destruct (visitor_sound q e _ _ V0 E SA (render_inner_sql q e ps E F)) as [L _].
 Qed.
 
 Lemma literal_table_bool :
@@ -54,5 +58,15 @@ Proof. vm_compute. reflexivity. Qed.
 Lemma literal_table d c p : In p (visitor d c) -> literal_ok (qspec_of d) p = true.
 Proof.
   intro I. pose proof literal_table_bool as H. rewrite forallb_forall in H.
-  specialize (H (d, c) (all_pairs_complete d c)). cbn [fst snd] in H. rewrite forallb_forall in H. now apply H.
+  destruct (is_identity_alter c) eqn:IA.
+  - destruct c; try discriminate. clear H.
+    destruct d; try (vm_compute in I; repeat (destruct I as [<-|I]; [reflexivity|]); now destruct I).
+    assert (E : visitor Postgresql (CIdentityAlter steps)
+                = alter_table ++ [K " "; K "ALTER COLUMN "; Col NColumn; K " "] ++ pg_identity_steps 0 steps) by reflexivity.
+    rewrite E in I. apply in_app_or in I as [I|I]; [|apply in_app_or in I as [I|I]];
+      try (vm_compute in I; repeat (destruct I as [<-|I]; [reflexivity|]); now destruct I).
+    clear E IA. revert I. generalize 0%nat. induction steps as [|[b|] l IH]; intros i I; cbn [pg_identity_steps] in I; [destruct I| |].
+    + destruct I as [<-|I]; [reflexivity | now apply (IH i)].
+    + destruct I as [<-|[<-|[<-|I]]]; try reflexivity. now apply (IH (Datatypes.S i)).
+  - specialize (H (d, c) (all_pairs_complete d c IA)). cbn [fst snd] in H. rewrite forallb_forall in H. now apply H.
 Qed.
